@@ -7,6 +7,7 @@ from .. import paths
 from ..core import call_attr, calls_in, const, dotted, is_const, kwarg, norm, text, walk_local
 
 EXPLANATION = [
+    'C11.declared-permissions: Server.add_service registers the very objects the application declared (no loop variable over declared descriptors / characteristics is rebound before add_attribute) and builds attributes of its own, with default permissions, only under the test that the application declared none.',
     'C11.gate: in Attribute.read_value / write_value every path that reaches the value access has evaluated, for each requirement '
     'bit of its own direction (plain access bit, encryption, authentication, authorisation), a test that raises the matching ATT error; '
     'each refusing test is exactly the conjunction {bit set, connection known, link property missing}.',
@@ -312,6 +313,34 @@ def access(ctx):
     R.floor(rule, 20, 'handler obligations')
 
 
+def declared_permissions(ctx):
+    """What the application declared is what the server registers: add_service adds the application's own attribute objects
+    (their permissions included) and constructs attributes of its own only where the application declared none."""
+    R, p = ctx.r, ctx.p
+    rule = 'C11.declared-permissions'
+    fn = p.find(f'{SRV}.add_service')
+    if fn is None:
+        R.bad(rule, f'{SRV}.add_service', 'anchor missing')
+        return
+    n = 0
+    for loop in [l for l in ast.walk(fn) if isinstance(l, ast.For) and isinstance(l.target, ast.Name)]:
+        t = loop.target.id
+        adds = [c for c in calls_in(loop) if dotted(c.func) == 'self.add_attribute' and c.args and dotted(c.args[0]) == t]
+        if not adds and t not in ('descriptor', 'characteristic'):
+            continue
+        n += 1
+        rebinds = [x for x in ast.walk(loop) if x is not loop and isinstance(x, (ast.Assign, ast.AugAssign, ast.NamedExpr, ast.AnnAssign)) and any(isinstance(y, ast.Name) and y.id == t and isinstance(y.ctx, ast.Store) for y in ast.walk(x))]
+        R.check(bool(adds) and not rebinds, rule, f'{SRV}.add_service | {t}', f'every declared {t} is registered as the object the application supplied',
+                f'inside the loop over the declared {t}s the variable `{t}` is replaced before it is registered (line {rebinds[0].lineno if rebinds else "?"}): the attribute in the table is not the declared one and its declared permissions are lost' if rebinds else f'declared {t}s are not registered', p.loc(rebinds[0]) if rebinds else p.loc(loop))
+    own = [c for c in ast.walk(fn) if isinstance(c, ast.Call) and call_attr(c) in ('Descriptor', 'Characteristic', 'Attribute')]
+    for c in own:
+        g = [(norm(t_), pol) for t_, pol in paths.flat_guards(c)]
+        ok = any('get_descriptor(' in t_ and t_.rstrip().endswith('is None') and pol for t_, pol in g)
+        R.check(ok, rule, f'{SRV}.add_service | {call_attr(c)} built by the server @{c.lineno - fn.lineno}', 'constructed only where the application declared no such attribute',
+                'the server builds an attribute with permissions of its own although the application may have declared one: the declared security requirements are replaced by the defaults', p.loc(c))
+    R.check(n >= 2 and len(own) >= 1, rule, f'{SRV}.add_service | census', f'{n} loops over declared attributes, {len(own)} server-built attribute(s)', f'only {n} loops / {len(own)} constructions recognised')
+
+
 def bits(ctx):
     R, p = ctx.r, ctx.p
     rule = 'C11.bits'
@@ -331,6 +360,19 @@ def bits(ctx):
         used = {x.attr for x in ast.walk(fn) if isinstance(x, ast.Attribute) and x.attr in vals}
         wrong = {u for u in used if not u.startswith(own)}
         R.check(not wrong, rule, f'{ATTR}.{fname} | own direction', f'tests only {sorted(used)}', f'{fname} tests flags of the other direction: {sorted(wrong)}', p.loc(fn))
+    # the error codes with which a refusal is reported: values of the specification (Vol 3 Part F 3.4.1.1) and module aliases
+    ec = p.cls(f'{ATTR.rsplit(".", 1)[0]}.ErrorCode')
+    am = p.modules.get(ATTR.rsplit('.', 1)[0])
+    SPEC = {'INSUFFICIENT_AUTHENTICATION': 0x05, 'INSUFFICIENT_AUTHORIZATION': 0x08, 'INSUFFICIENT_ENCRYPTION_KEY_SIZE': 0x0C, 'INSUFFICIENT_ENCRYPTION': 0x0F, 'READ_NOT_PERMITTED': 0x02, 'WRITE_NOT_PERMITTED': 0x03}
+    if ec is None or am is None:
+        R.bad(rule, 'bumble.att.ErrorCode', 'anchor missing')
+    else:
+        ev = {k: const(v) for k, v in ec.assigns.items() if is_const(v)}
+        wrong = {k: ev.get(k) for k, v in SPEC.items() if ev.get(k) != v}
+        R.check(not wrong, rule, 'bumble.att.ErrorCode | security codes', 'the six permission / security error codes have their specified values', f'error code values differ from the specification: {wrong}', p.loc(ec.node))
+        al = {k: text(v) for k, v in am.assigns.items() if k.startswith('ATT_') and k.endswith('_ERROR') and text(v).startswith('ErrorCode.')}
+        crossed = {k: v for k, v in al.items() if v.split('.')[-1] != k[4:-6]}
+        R.check(len(al) >= 15 and not crossed, rule, 'bumble.att | ATT_*_ERROR aliases', f'{len(al)} aliases, each bound to the member of the same name', f'alias bound to a differently named error code: {crossed}: a refusal is reported with the wrong reason', '')
     # legacy aliases map to the same member
     for k in vals:
         a = ci.assigns.get(k)
@@ -338,6 +380,7 @@ def bits(ctx):
 
 
 RULES = [
+    ('C11.declared-permissions', declared_permissions),
     ('C11.gate', gate),
     ('C11.access', access),
     ('C11.bits', bits),
